@@ -108,6 +108,17 @@ def check_exact(ctx, c):
                 f, v = k(tp if fdim > 1 else tp[0], **kw)
                 fr, _ = k(post_process=False, store=False, **kw)
         ctx.event("exactness_points", tp.shape[1])
+        # the variance the object keeps (what CondSRF and users read later) obeys the same bounds as the returned one
+        try:
+            stored_v = np.asarray(k["krige_var"], dtype=float)
+        except (KeyError, AttributeError, ValueError):
+            stored_v = None
+        if stored_v is not None:
+            ctx.event("stored_variances_inspected")
+            if not (np.all(stored_v >= 0.0) and np.array_equal(stored_v.reshape(np.shape(v)), np.asarray(v))):
+                ctx.fail({"what": "stored-kriging-variance!=returned/negative", "variant": c["variant"], "geo": c["geo"]},
+                         f"stored krige_var: min {np.min(stored_v)!r}, returned min {np.min(v)!r}, equal {np.array_equal(stored_v.reshape(np.shape(v)), np.asarray(v))}")
+                return
         mech = {"variant": c["variant"], "geo": c["geo"], "exact_flag": c["exact"], "nugget": md["nugget"] > 0, "offset": offset > 0,
                 "norm": c["norm"] != "Normalizer", "mean": c["mean"], "trend": c["trend"] != "none"}
         # raw (normalised, detrended) values
